@@ -461,13 +461,13 @@ fn counts(x: &[u8]) -> [u32; 256] { let mut f = [0u32; 256]; for &b in x { f[b a
 const FRONT_ALGS: [Algorithm; 6] = [Algorithm::None, Algorithm::Lz4, Algorithm::Zstd(1), Algorithm::Zstd(6), Algorithm::SimdLz77, Algorithm::Zstd(15)];
 
 /// history: each step optionally switches the algorithm, then compresses and decompresses a payload
-fn adaptive_case(cx: &mut Ctx, steps: &[(u64, Vec<u8>)], aggressive: bool, min_ops: usize) {
+fn adaptive_case(cx: &mut Ctx, steps: &[(u64, Vec<u8>)], aggressive: bool, min_ops: usize, interval: usize) {
     let cell = "adaptive";
-    cx.sum.cell_status(cell, "S-only");
-    let cj = json!({"cell": cell, "steps": steps.iter().map(|(a, d)| json!([a, d])).collect::<Vec<_>>(), "aggressive": aggressive, "min_ops": min_ops});
-    cx.sum.eval(cell, &format!("ad {:?} {} {}", steps, aggressive, min_ops), steps.len() >= 2);
+    cx.sum.cell_status(cell, "M+S");
+    let cj = json!({"cell": cell, "steps": steps.iter().map(|(a, d)| json!([a, d])).collect::<Vec<_>>(), "aggressive": aggressive, "min_ops": min_ops, "interval": interval});
+    cx.sum.eval(cell, &format!("ad {:?} {} {} {}", steps, aggressive, min_ops, interval), steps.len() >= 2);
     let r = guarded(|| {
-        let cfg = AdaptiveConfig { min_operations: min_ops, evaluation_interval: 3, aggressive_learning: aggressive, learning_window: 16, ..Default::default() };
+        let cfg = AdaptiveConfig { min_operations: min_ops, evaluation_interval: interval, aggressive_learning: aggressive, learning_window: 16, ..Default::default() };
         let mut a = match AdaptiveCompressor::new(cfg, PerformanceRequirements::default()) { Ok(a) => a, Err(e) => return Some(format!("new failed: {}", e)) };
         for (i, (sw, d)) in steps.iter().enumerate() {
             if *sw == 7 {
@@ -503,7 +503,7 @@ const MODES: [(CompressionMode, &str); 4] = [(CompressionMode::UltraLowLatency, 
 /// steps: (switch_mode 0=keep else mode index+1, deadline kind 0=mode default 1=already passed 2=an hour, payload)
 fn realtime_case(cx: &mut Ctx, mode: usize, fallback: bool, steps: &[(u64, u64, Vec<u8>)]) {
     let cell = format!("realtime/{}", MODES[mode % 4].1);
-    cx.sum.cell_status(&cell, "S-only");
+    cx.sum.cell_status(&cell, "M+S");
     let cj = json!({"cell": "realtime", "mode": mode, "fallback": fallback, "steps": steps.iter().map(|(a, b, d)| json!([a, b, d])).collect::<Vec<_>>()});
     cx.sum.eval(&cell, &format!("rt {} {} {:?}", mode, fallback, steps), steps.len() >= 2);
     let r = guarded(|| {
@@ -822,7 +822,7 @@ fn run_one(cx: &mut Ctx, c: &Value) {
         "rans/table" => { let v: Vec<u32> = c["freqs"].as_array().map(|a| a.iter().map(|x| x.as_u64().unwrap_or(0) as u32).collect()).unwrap_or_default(); let mut f = [0u32; 256]; for (i, x) in v.iter().take(256).enumerate() { f[i] = *x; } rans_tie(cx, &f, true) }
         "adaptive" => {
             let steps: Vec<(u64, Vec<u8>)> = c["steps"].as_array().map(|a| a.iter().map(|s| (s[0].as_u64().unwrap_or(0), bytes_of(&s[1]))).collect()).unwrap_or_default();
-            adaptive_case(cx, &steps, c["aggressive"].as_bool().unwrap_or(false), c["min_ops"].as_u64().unwrap_or(50) as usize)
+            adaptive_case(cx, &steps, c["aggressive"].as_bool().unwrap_or(false), c["min_ops"].as_u64().unwrap_or(50) as usize, c["interval"].as_u64().unwrap_or(3) as usize)
         }
         "realtime" => {
             let steps: Vec<(u64, u64, Vec<u8>)> = c["steps"].as_array().map(|a| a.iter().map(|s| (s[0].as_u64().unwrap_or(0), s[1].as_u64().unwrap_or(0), bytes_of(&s[2]))).collect()).unwrap_or_default();
@@ -837,6 +837,14 @@ fn run_one(cx: &mut Ctx, c: &Value) {
         "comp_tie" => {
             let train = if c["train"].is_null() { vec![] } else { bytes_of(&c["train"]) };
             if !train.is_empty() { x::comp_tie(cx, c["kind"].as_u64().unwrap_or(0), &bytes_of(&c["data"]), &train, true) }
+        }
+        "rt_tie" => {
+            let steps: Vec<(u64, u64, Vec<u8>)> = c["steps"].as_array().map(|a| a.iter().map(|s| (s[0].as_u64().unwrap_or(0), s[1].as_u64().unwrap_or(0), bytes_of(&s[2]))).collect()).unwrap_or_default();
+            x::rt_tie(cx, c["mode"].as_u64().unwrap_or(0) as usize, c["fallback"].as_bool().unwrap_or(true), &steps)
+        }
+        "ad_tie" => {
+            let ops: Vec<(u64, u64, Vec<u8>)> = c["ops"].as_array().map(|a| a.iter().map(|s| (s[0].as_u64().unwrap_or(0), s[1].as_u64().unwrap_or(0), bytes_of(&s[2]))).collect()).unwrap_or_default();
+            x::ad_tie(cx, c["min_ops"].as_u64().unwrap_or(50) as usize, c["interval"].as_u64().unwrap_or(3) as usize, c["aggressive"].as_bool().unwrap_or(false), c["window"].as_u64().unwrap_or(16) as usize, &ops)
         }
         "big" => x::big_case(cx, c["front"].as_u64().unwrap_or(0), c["sel"].as_u64().unwrap_or(0) as usize, c["kind"].as_u64().unwrap_or(0), c["n"].as_u64().unwrap_or(0) as usize),
         "realtime_batch" => x::realtime_batch_case(cx, c["mode"].as_u64().unwrap_or(0) as usize, c["fallback"].as_bool().unwrap_or(true), c["item_len"].as_u64().unwrap_or(0) as usize, c["n_big"].as_u64().unwrap_or(0) as usize, c["seed"].as_u64().unwrap_or(0)),
@@ -1026,8 +1034,10 @@ pub fn run(args: &Args) {
         if r.chance(3, 4) { steps[0].0 = *r.pick(&[1u64, 3, 4, 5, 6]); }
         let aggressive = r.chance(1, 2);
         let min_ops = *r.pick(&[1usize, 5, 50]);
+        // evaluation_interval: mostly 3 (so that evaluations happen within short histories), also the edges 0, 1 and a large one
+        let interval = *r.pick(&[3usize, 3, 3, 0, 1, 1000]);
         cx.rng = r;
-        adaptive_case(&mut cx, &steps, aggressive, min_ops);
+        adaptive_case(&mut cx, &steps, aggressive, min_ops, interval);
     }
     for k in 0..(if th { 800 } else { 120 }) {
         let mut r = cx.rng.clone();
@@ -1040,6 +1050,8 @@ pub fn run(args: &Args) {
         cx.rng = r;
         realtime_case(&mut cx, k % 4, fb, &steps);
     }
+    // 5a. the front ends against the decision automata (ModelFront.v)
+    x::run_front_ties(&mut cx, th);
     // 5b. families added after seeded-change round 2 (large compressible payloads, batches that overrun)
     x::run_extension_oracle(&mut cx, th);
     // 6. PA-Zip compressor presets and SIMD LZ77
